@@ -170,7 +170,7 @@ def plan(tier: str, seed: int, scale: float = 1.0) -> List[Dict[str, Any]]:
 
 def run_shard(spec: Dict[str, Any]) -> Dict[str, Any]:
     col = Collector()
-    run_campaign(gen.case(), lambda c: check_case(c, col), spec["n"], spec["seed"])
+    run_campaign(gen.case(rich_sweeps="numpy"), lambda c: check_case(c, col), spec["n"], spec["seed"])
     return col.result()
 
 
